@@ -29,9 +29,12 @@ var props = map[string]propDef{}
 func init() {
 	props["C01"] = propDef{gen: GenC01, chk: func() Checker { return &stratChecker{prop: "C01", fileInv: true} }}
 	props["C03"] = propDef{gen: GenC03, chk: func() Checker { return &c03Checker{prop: "C03"} }}
+	props["C04"] = propDef{gen: GenC04, chk: func() Checker { return &c04Checker{} }}
 	props["C05"] = propDef{gen: GenC05, chk: func() Checker { return &stratChecker{prop: "C05", fileInv: true, monitors: true} }}
 	props["C07"] = propDef{gen: GenC07, chk: func() Checker { return &stratChecker{prop: "C07", fileInv: true} }}
+	props["C10"] = propDef{gen: GenC10, chk: func() Checker { return &c10Checker{} }}
 	props["C11"] = propDef{gen: GenC11, chk: func() Checker { return &c11Checker{} }}
+	props["C15"] = propDef{gen: GenC15, chk: func() Checker { return &c15Checker{} }}
 	props["C16"] = propDef{gen: GenC16, chk: func() Checker { return &stratChecker{prop: "C16", fileInv: true} }}
 }
 
